@@ -516,6 +516,21 @@ theorem gen_missing_obs [Field α] (log : α → α) (log2pi half fill : α) (y 
   refine ⟨h1 fill, ?_, fun f => by rw [h1, h1], fun _ _ => rfl⟩
   cases y <;> simp [missingLmGen, missingObsTerm, gen_log_marginal_eq_closed_form]
 
+/-- **`FixedGaussianNoise._apply` as generated** (`.to()` / `.double()` / `.float()` / `.cpu()`): the stored noise is mapped by
+`fn` and by nothing else — whatever any further operation (`extra`) would do; hence a same-dtype / same-device move
+(`fn = id`) leaves the stored noise, and with it the noise operator of every later call, exactly as it was. -/
+theorem gen_fixed_apply (fn : α → α) (extra : Nat → α → α) (stored : Array α) :
+    fixedApplyGen fn extra stored = fixedApply fn stored ∧ fixedApplyOps = ["fn"] ∧
+    fixedApplyGen id extra stored = stored := by
+  refine ⟨rfl, by decide, ?_⟩
+  simp [fixedApplyGen]
+
+/-- a move that does not change the representation changes no later noise operator (FixedNoise, ± learned, ± call-time). -/
+theorem gen_move_keeps_noise [Zero α] [Add α] (extra : Nat → α → α) (stored : Array α) (learned : Option α) (n : Nat)
+    (call : Option (Fin n → α)) :
+    fixedNoise (fixedApplyGen id extra stored) learned n call = fixedNoise stored learned n call := by
+  rw [(gen_fixed_apply id extra stored).2.2]
+
 end generated
 
 /-! ### the hypotheses are satisfiable / the statements are not vacuous -/
@@ -546,5 +561,7 @@ example : missingObsTerm (none : Option ℚ) (fun y => y + 1) = 0 ∧ missingObs
   constructor
   · simp [missingObsTerm]
   · simp [missingObsTerm]; norm_num
+
+example : fixedApply (fun x : ℚ => x) #[1 / 100000000, 3] = #[1 / 100000000, 3] := by simp [fixedApply]
 
 end C12
